@@ -16,19 +16,23 @@ func LangTagConverter(century int, dateFormat DateFormat) func(float64, string, 
 		TAG = 0
 		P1 = 0
 		P2 = 0
-		for ok := true; ok; ok = P1 == 0 {
+		for ok := true; ok; ok = P1 == 0 && TAG < 366 {
 			TAG++
 			DL, _, _, _, _, _, _ := CalculateDayLenght(float64(TAG), LAT)
 			if DL > 14 {
 				P1 = TAG
 			}
 		}
-		for ok := true; ok; ok = P2 == 0 {
+		for ok := true; ok; ok = P2 == 0 && TAG < 366 {
 			TAG++
 			DL, _, _, _, _, _, _ := CalculateDayLenght(float64(TAG), LAT)
 			if DL > 16 {
 				P2 = TAG // Beginn Große Periode
 			}
+		}
+		if P1 == 0 || P2 == 0 {
+			// no day of the year is longer than 14 h resp. 16 h at this latitude
+			return 0, 0, 0
 		}
 		if progDat[1] != '-' {
 			var progja int
